@@ -306,8 +306,8 @@ impl<'a> Harm<'a> {
                     let _ = wait_quiet(s, short, Duration::from_secs(60)).await;
                 }
             }
-            Op::Offload { level } => {
-                let _ = self.sut.as_mut().unwrap().offload(usize::MAX, *level as usize).await;
+            Op::Offload { level, need } => {
+                let _ = self.sut.as_mut().unwrap().offload(crate::ops::offload_needed(*need), *level as usize).await;
             }
             Op::Fsync => {
                 let _ = self.s().fsyncdata().await;
@@ -443,6 +443,108 @@ fn sample(c: &HarmCase) -> Value {
     json!({"cfg": format!("keylen={} validate_data={} ignore_corrupted={} defer_ms={:?} rt_workers={}", c.cfg.keylen, c.cfg.validate_data, c.cfg.ignore_corrupted, c.cfg.defer_ms, c.cfg.rt_workers), "ops": ops})
 }
 
+// ------------------------------------------------------------------------------------------------
+// phase "tools-self": the offline tools are API calls too - a call that names the blob it reads as its own output
+// ------------------------------------------------------------------------------------------------
+
+/// A small storage directory is produced by a generated history and closed; then one tools call is made whose output
+/// path is the input blob itself, spelled in a way `Path` equality identifies with it (the tools refuse "recovering into
+/// the same file"; spellings that differ as paths - `..`, links, relative vs absolute - are the caller's explicit request
+/// to overwrite that file and are not demanded here).
+#[derive(Clone, Debug, Serialize, Deserialize)]
+pub struct SelfCase {
+    pub cfg: Cfg,
+    pub ops: Vec<Op>,
+    /// 0 recovery_blob(skip=false), 1 recovery_blob(skip=true), 2 migrate_blob, 3 move_and_recover_blob
+    pub tool: u8,
+    /// 0 identical string, 1 doubled separator, 2 `/./` inserted, 3 both, 4 `./` runs at several places
+    pub spelling: u8,
+    /// the re-spelled path is the input (true) or the output (false)
+    pub respell_input: bool,
+    pub validate_every: u8,
+    pub target: u8,
+}
+
+pub fn self_strategy() -> BoxedStrategy<SelfCase> {
+    let gen = GenParams { nkeys: 4, ts_span: 4, metas: 3, max_ops: 16, w_write: 70, w_delete: 12, w_switch: 14, w_wait: 4, w_reopen: 0, ..Default::default() };
+    (prop::sample::select(&[8usize, 33][..]), prop::collection::vec(op_strategy(&gen), 1..gen.max_ops), 0u8..4, 0u8..5, any::<bool>(), 0u8..3, any::<u8>())
+        .prop_map(|(keylen, ops, tool, spelling, respell_input, validate_every, target)| SelfCase { cfg: Cfg { keylen, allow_dup: true, ..Cfg::default() }, ops, tool, spelling, respell_input, validate_every, target })
+        .boxed()
+}
+
+fn respell(dir: &Path, name: &str, spelling: u8) -> PathBuf {
+    let d = dir.to_string_lossy().to_string();
+    PathBuf::from(match spelling {
+        1 => format!("{}//{}", d, name),
+        2 => format!("{}/./{}", d, name),
+        3 => format!("{}/.//{}", d, name),
+        4 => format!("{}/././/./{}", d.replacen("/", "//", 1), name),
+        _ => format!("{}/{}", d, name),
+    })
+}
+
+pub fn run_self(c: &SelfCase, dir: &Path, findings: &Findings) -> Result<CaseOut, Failure> {
+    let fail = |clause: &str, detail: String| -> Result<CaseOut, Failure> { Err(Failure { clause: clause.into(), detail, step: 0, op: format!("tool {} spelling {} respell_input {}", c.tool, c.spelling, c.respell_input) }) };
+    let src = dir.join("src");
+    let rt = c.cfg.runtime();
+    let stats = rt.block_on(async {
+        let mut ex = crate::interp::Exec::new(c.cfg.clone(), src.clone(), crate::interp::Checks::default(), 4, 3, findings);
+        ex.start().await?;
+        for (i, op) in c.ops.iter().enumerate() {
+            ex.apply(i, op).await?;
+        }
+        ex.close().await?;
+        Ok::<_, Failure>(ex.stats.clone())
+    })?;
+    drop(rt);
+    let mut blobs: Vec<(PathBuf, Vec<u8>)> = vec![];
+    for e in std::fs::read_dir(&src).map_err(|e| Failure { clause: "harness/io".into(), detail: e.to_string(), step: 0, op: String::new() })? {
+        let p = e.map_err(|e| Failure { clause: "harness/io".into(), detail: e.to_string(), step: 0, op: String::new() })?.path();
+        if p.extension().map_or(false, |x| x == "blob") {
+            let b = std::fs::read(&p).unwrap_or_default();
+            blobs.push((p, b));
+        }
+    }
+    blobs.sort();
+    let mut labels = BTreeSet::new();
+    if blobs.is_empty() {
+        return Ok(CaseOut { nontrivial: false, labels, stats, known_hits: Default::default(), weight: 1 });
+    }
+    let (plain, before) = blobs[c.target as usize % blobs.len()].clone();
+    let name = plain.file_name().unwrap().to_string_lossy().to_string();
+    let spelled = respell(&src, &name, c.spelling);
+    if spelled.as_path() != plain.as_path() {
+        return fail("harness/spelling", format!("{:?} and {:?} are different paths", spelled, plain));
+    }
+    let (input, output) = if c.respell_input { (spelled.clone(), plain.clone()) } else { (plain.clone(), spelled.clone()) };
+    let ve = c.validate_every as usize;
+    let res = match c.tool {
+        0 => pearl::tools::recovery_blob(&input, &output, ve, false),
+        1 => pearl::tools::recovery_blob(&input, &output, ve, true),
+        2 => pearl::tools::migrate_blob(&input, &output, ve, 1),
+        _ => pearl::tools::move_and_recover_blob(&input, &output, ve),
+    };
+    labels.insert(format!("tool_{}", c.tool));
+    labels.insert(format!("spelling_{}", c.spelling));
+    labels.insert(if res.is_ok() { "call_ok".to_string() } else { "call_refused".to_string() });
+    // no harm: every blob that existed still exists with its earlier bytes as a prefix
+    for (p, old) in &blobs {
+        let now = match std::fs::read(p) {
+            Ok(b) => b,
+            Err(e) => return fail("tools-self/blob-gone", format!("{:?} (was {} bytes): {} - call result {:?}", p, old.len(), e, res.as_ref().map_err(|e| format!("{:#}", e)))),
+        };
+        if now.len() < old.len() || now[..old.len()] != old[..] {
+            return fail("tools-self/blob-harmed", format!("{:?} had {} bytes, now {} bytes, earlier content is not a prefix - call result {:?}", p, old.len(), now.len(), res.as_ref().map_err(|e| format!("{:#}", e))));
+        }
+    }
+    let _ = before;
+    Ok(CaseOut { nontrivial: c.spelling != 0, labels, stats, known_hits: Default::default(), weight: 1 })
+}
+
+fn sample_self(c: &SelfCase) -> Value {
+    json!({"keylen": c.cfg.keylen, "ops": render_ops(&c.ops), "tool": c.tool, "spelling": c.spelling, "respell_input": c.respell_input, "validate_every": c.validate_every})
+}
+
 pub fn run(ctx: &RunCtx) -> PropResult {
     let mut report = Report::default();
     let findings = ctx.findings.clone();
@@ -450,10 +552,14 @@ pub fn run(ctx: &RunCtx) -> PropResult {
     run_replays::<HarmCase, _>(ctx, "harm", &ctx.verif_dir.join("replays").join("C07"), runf, &mut report);
     let runf = |c: &HarmCase, d: &Path| run_harm(c, d, &findings);
     run_generated(ctx, "harm", ctx.tier.pick(4000, 40_000), harm_strategy, runf, &sample, &mut report);
+    let runf = |c: &SelfCase, d: &Path| run_self(c, d, &findings);
+    run_replays::<SelfCase, _>(ctx, "tools-self", &ctx.verif_dir.join("replays").join("C07"), runf, &mut report);
+    let runf = |c: &SelfCase, d: &Path| run_self(c, d, &findings);
+    run_generated(ctx, "tools-self", ctx.tier.pick(400, 6000), self_strategy, runf, &sample_self, &mut report);
     PropResult {
         report,
         level: "exploration",
-        rule: "proptest histories over ALL public calls (data ops, try_close/create/restore, force_update, *_in_background, offload, fsync, free, wait-idle), restarts with index damage, one-shot injected I/O failures (n-th create / open / write / short write / sync on blob or index files, ENOSPC or EIO, hitting client calls, background tasks or a later init alike), and crash-restarts in which blob files are damaged so that init quarantines them (cut inside a record header / body / the blob header, zeroed magic, flipped header byte; data validation on/off; quarantine or ignore; the corrupted dir under its default name, another name, or a two-component relative path). After EVERY step the bytes of every *.blob in the work dir and the corrupted dir are compared with the previous snapshot: earlier bytes must be a prefix of the current bytes, or the file sits byte-identical in the corrupted dir (then immutable); new blob files must carry an id never used by any file of either directory. From the I/O tap: every write to a *.blob starts exactly at the end implied by the earlier writes (a failed write keeps its reserved range: nothing is ever written over it), no truncate/remove ever names a *.blob, renames only move a blob into the corrupted dir without overwriting, and at idle points a batch of every query kind is bracketed by zero write/create/truncate/rename/remove events. Non-trivial = a blob was created after a restart or a quarantine, or a failpoint fired. distinct = FNV hash of the serialized case.".into(),
+        rule: "proptest histories over ALL public calls (data ops, try_close/create/restore, force_update, *_in_background, offload, fsync, free, wait-idle), restarts with index damage, one-shot injected I/O failures (n-th create / open / write / short write / sync on blob or index files, ENOSPC or EIO, hitting client calls, background tasks or a later init alike), and crash-restarts in which blob files are damaged so that init quarantines them (cut inside a record header / body / the blob header, zeroed magic, flipped header byte; data validation on/off; quarantine or ignore; the corrupted dir under its default name, another name, or a two-component relative path). After EVERY step the bytes of every *.blob in the work dir and the corrupted dir are compared with the previous snapshot: earlier bytes must be a prefix of the current bytes, or the file sits byte-identical in the corrupted dir (then immutable); new blob files must carry an id never used by any file of either directory. From the I/O tap: every write to a *.blob starts exactly at the end implied by the earlier writes (a failed write keeps its reserved range: nothing is ever written over it), no truncate/remove ever names a *.blob, renames only move a blob into the corrupted dir without overwriting, and at idle points a batch of every query kind is bracketed by zero write/create/truncate/rename/remove events. A phase tools-self closes a generated small directory and makes one offline-tools call (recovery_blob with either skip value, migrate_blob, move_and_recover_blob) whose output is the input blob itself under a spelling Path equality identifies with it (identical, doubled separators, /./ segments; either argument re-spelled): whatever the call answers, every blob file keeps its earlier bytes as a prefix. Non-trivial = a blob was created after a restart or a quarantine, or a failpoint fired; tools-self: the two spellings differ as strings. distinct = FNV hash of the serialized case.".into(),
         assumptions: {
             let mut a = common_assumptions();
             a.push("damage applied by the harness itself re-baselines the snapshot (it is the fault, not the system's doing)".into());
@@ -466,6 +572,9 @@ pub fn replay_other(phase: &str, case: &Value, dir: &Path, findings: &Findings) 
     if phase == "harm" {
         let runf = |c: &HarmCase, d: &Path| run_harm(c, d, findings);
         serde_json::from_value::<HarmCase>(case.clone()).ok().map(|c| guarded(&c, dir, &runf))
+    } else if phase == "tools-self" {
+        let runf = |c: &SelfCase, d: &Path| run_self(c, d, findings);
+        serde_json::from_value::<SelfCase>(case.clone()).ok().map(|c| guarded(&c, dir, &runf))
     } else {
         None
     }
